@@ -801,7 +801,7 @@ pub fn run_c07(opts: &Opts, out: &mut Emitter) {
             v
         });
     }
-    for (name, e) in concat_sweep() {
+    for (name, e) in concat_sweep().into_iter().chain(coerce_sweep()) {
         let mut t = empty_tx();
         t.fees = fees_param();
         t.outputs.push(tir::Output { address: tir::Expression::None, datum: e, amount: ada(2_000_000), optional: false });
@@ -815,6 +815,70 @@ pub fn run_c07(opts: &Opts, out: &mut Emitter) {
             v["shape"] = json!(name);
             v
         });
+    }
+    // arg-kind sweep: a parameter of every declared type met by an argument of every kind (the substitution does
+    // not look at the declared type, so each pair must come out as the argument's own expression), in a datum,
+    // behind a coercion and inside a list
+    {
+        use tx3_tir::model::core::{Type, Utxo, UtxoRef};
+        let mut set = std::collections::HashSet::new();
+        set.insert(Utxo {
+            r#ref: UtxoRef { txid: vec![8; 32], index: 2 },
+            address: ADDR_A.to_vec(),
+            assets: tx3_tir::model::assets::CanonicalAssets::from_naked_amount(7),
+            datum: Some(tir::Expression::Number(4)),
+            script: None,
+        });
+        let tys: Vec<(&str, Type)> = vec![
+            ("undefined", Type::Undefined),
+            ("unit", Type::Unit),
+            ("int", Type::Int),
+            ("bool", Type::Bool),
+            ("bytes", Type::Bytes),
+            ("address", Type::Address),
+            ("utxo", Type::Utxo),
+            ("utxo-ref", Type::UtxoRef),
+            ("any-asset", Type::AnyAsset),
+            ("list", Type::List),
+            ("map", Type::Map),
+            ("custom", Type::Custom("Thing".into())),
+        ];
+        let vals: Vec<(&str, ArgValue)> = vec![
+            ("int", ArgValue::Int(-3)),
+            ("bool", ArgValue::Bool(false)),
+            ("text", ArgValue::String("hello".into())),
+            ("empty-text", ArgValue::String(String::new())),
+            ("bytes", ArgValue::Bytes(vec![0xca, 0xfe])),
+            ("address", ArgValue::Address(ADDR_A.to_vec())),
+            ("utxo-ref", ArgValue::UtxoRef(UtxoRef { txid: vec![6; 32], index: 3 })),
+            ("utxo-set", ArgValue::UtxoSet(set)),
+            ("empty-utxo-set", ArgValue::UtxoSet(Default::default())),
+        ];
+        for (tn, ty) in tys.iter() {
+            for (vn, val) in vals.iter() {
+                for place in 0..3u8 {
+                    let p = param("v", ty.clone());
+                    let datum = match place {
+                        0 => p,
+                        1 => tir::Expression::EvalCoerce(Box::new(tir::Coerce::IntoDatum(p))),
+                        _ => tir::Expression::List(vec![tir::Expression::Number(1), p]),
+                    };
+                    let mut t = empty_tx();
+                    t.fees = fees_param();
+                    t.outputs.push(tir::Output { address: tir::Expression::None, datum, amount: ada(2_000_000), optional: false });
+                    let mut case = complete_case(&mut g, t);
+                    case.args.insert("v".into(), val.clone());
+                    let thorough = opts.thorough;
+                    let name = format!("{tn}<-{vn}@{place}");
+                    out.case("arg-kind-sweep", || {
+                        let s = if thorough { None } else { Some(&mut sampler) };
+                        let mut v = case_json(&case, observe(&case, true, s));
+                        v["shape"] = json!(name);
+                        v
+                    });
+                }
+            }
+        }
     }
     // query-shape sweep: an input block and a collateral block whose query states every subset of {address,
     // min_amount, ref}, each part written as a literal or as a parameter, single and multi: whatever a stage or a
@@ -914,6 +978,48 @@ pub fn concat_sweep() -> Vec<(String, tir::Expression)> {
         for (bn, b) in palette.iter() {
             out.push((format!("concat({an},{bn})"), E::EvalBuiltIn(Box::new(B::Concat(a.clone(), b.clone())))));
         }
+    }
+    out
+}
+
+/// Every coercion over every class of operand (nothing, scalars, containers, an asset list, a UTxO set with and
+/// without a datum, a pending parameter).
+pub fn coerce_sweep() -> Vec<(String, tir::Expression)> {
+    use tir::{Coerce, Expression as E};
+    use tx3_tir::model::core::{Type, Utxo, UtxoRef};
+    let utxo = |datum: Option<E>| {
+        let mut set = std::collections::HashSet::new();
+        set.insert(Utxo {
+            r#ref: UtxoRef { txid: vec![9; 32], index: 0 },
+            address: ADDR_A.to_vec(),
+            assets: tx3_tir::model::assets::CanonicalAssets::from_naked_amount(5),
+            datum,
+            script: None,
+        });
+        E::UtxoSet(set)
+    };
+    let palette: Vec<(&str, E)> = vec![
+        ("none", E::None),
+        ("number", E::Number(7)),
+        ("text", E::String("ab".into())),
+        ("bytes", E::Bytes(vec![1, 2])),
+        ("bool", E::Bool(true)),
+        ("list", E::List(vec![E::Number(1)])),
+        ("map", E::Map(vec![(E::Number(1), E::Number(2))])),
+        ("tuple", E::Tuple(Box::new((E::Number(1), E::Number(2))))),
+        ("struct", E::Struct(tir::StructExpr { constructor: 1, fields: vec![E::Number(1)] })),
+        ("assets", ada(5)),
+        ("utxo", utxo(None)),
+        ("utxo-with-datum", utxo(Some(E::Number(3)))),
+        ("empty-utxo-set", E::UtxoSet(Default::default())),
+        ("pending", param("q", Type::Int)),
+    ];
+    let mut out = vec![];
+    for (n, x) in palette.iter() {
+        out.push((format!("noop({n})"), E::EvalCoerce(Box::new(Coerce::NoOp(x.clone())))));
+        out.push((format!("into_assets({n})"), E::EvalCoerce(Box::new(Coerce::IntoAssets(x.clone())))));
+        out.push((format!("into_datum({n})"), E::EvalCoerce(Box::new(Coerce::IntoDatum(x.clone())))));
+        out.push((format!("into_script({n})"), E::EvalCoerce(Box::new(Coerce::IntoScript(x.clone())))));
     }
     out
 }
